@@ -33,6 +33,14 @@ type faultWriter struct {
 	mode      int
 	capacity  int
 	calls     int
+	flushes   int
+}
+
+// Flush: the writer is also a flusher (as a bufio.Writer or an http.ResponseWriter wrapper is) whose
+// Flush has nothing left to do and succeeds: a failed write stays a failed render.
+func (w *faultWriter) Flush() error {
+	w.flushes++
+	return nil
 }
 
 func (w *faultWriter) fail(accepted []byte) (int, error) {
